@@ -227,3 +227,16 @@ func who(c *sim.Cluster, pub string) string {
 func (m *BlockSigs) Counters() map[string]int {
 	return map[string]int{"c09_stored_signatures_verified": m.SigsOK, "c09_anchor_observations": m.Anchors, "c09_own_gossiped_signatures_checked": m.OwnSigs, "c09_foreign_signatures_attribution_checked": m.Attributed}
 }
+
+// VerifySig is the harness's independent signature check (plain crypto/ecdsa).
+func VerifySig(pubHex string, digest []byte, sig string) bool { return verifySig(pubHex, digest, sig) }
+
+// JSONDigest is SHA-256 over the encoding/json Encoder output of v.
+func JSONDigest(v interface{}) []byte {
+	var buf bytes.Buffer
+	if err := json.NewEncoder(&buf).Encode(v); err != nil {
+		return nil
+	}
+	h := sha256.Sum256(buf.Bytes())
+	return h[:]
+}
